@@ -1645,6 +1645,8 @@ fn gc_case(case: u64, rng: &mut Rng, st: &mut Stats, dfs_budget: u64, rand_runs:
 // ---------------------------------------------------------------------------------------------
 
 fn main() {
+    // tasks are polled by hand in this binary: see vcore::run::use_plain_block_on
+    vcore::run::use_plain_block_on();
     let mut run = Run::from_args(
         "C08",
         "fault_enumeration",
